@@ -261,10 +261,13 @@ class RootToImageSet(e2.Case):
     def run(self, w):
         a = w.real("rootmin")
         b = w.real("rootmax")
+        a2 = w.real("rootmin_second_cascade")
+        b2 = w.real("rootmax_second_cascade")
         opened = []
         if w.symbolic:
             # ImageSet.data_min is a traitlets Float: carry the symbolic value on a float subclass (identity data flow)
             a, b = TagFloat(1.25, a), TagFloat(7.5, b)
+            a2, b2 = TagFloat(-3.5, a2), TagFloat(11.0, b2)
 
         class H(dict):
             pass
@@ -293,20 +296,29 @@ class RootToImageSet(e2.Case):
             b_ = tb.Builder(pio)
             b_.imgset.tile_levels = 3
             b_.cascade()
+            dmin, dmax = b_.imgset.data_min, b_.imgset.data_max
+            # the same Builder cascades AGAIN after more data were blended into the pyramid (the root now records another range)
+            Hdu.header = H(DATAMIN=a2, DATAMAX=b2)
+            b_.cascade()
+            dmin2, dmax2 = b_.imgset.data_min, b_.imgset.data_max
         finally:
             afits.open, tm.cascade_images = saved
-        dmin, dmax = b_.imgset.data_min, b_.imgset.data_max
         if w.symbolic:
-            if not isinstance(dmin, TagFloat) or not isinstance(dmax, TagFloat):
+            if not all(isinstance(v, TagFloat) for v in (dmin, dmax, dmin2, dmax2)):
                 raise symx.Unsupported("Builder.cascade computes with the header values (not a plain copy)")
             dmin, dmax, a, b = dmin.sym, dmax.sym, a.sym, b.sym
-        return dict(dmin=dmin, dmax=dmax, a=a, b=b, opened=opened, calls=calls)
+            dmin2, dmax2, a2, b2 = dmin2.sym, dmax2.sym, a2.sym, b2.sym
+        return dict(dmin=dmin, dmax=dmax, a=a, b=b, opened=opened[:1], calls=calls[:1], dmin2=dmin2, dmax2=dmax2, a2=a2, b2=b2, n_calls=len(calls))
 
     def claims(self, w, outs):
         w.claim_eq("imageset-data-min", outs["dmin"], outs["a"], probe=("dmin", None), ref=("a", None),
                    what="ImageSet.data_min must be the root tile's DATAMIN")
         w.claim_eq("imageset-data-max", outs["dmax"], outs["b"], probe=("dmax", None), ref=("b", None),
                    what="ImageSet.data_max must be the root tile's DATAMAX")
+        w.claim_eq("imageset-data-min-after-second-cascade", outs["dmin2"], outs["a2"], probe=("dmin2", None), ref=("a2", None),
+                   what="after a second cascade through the same Builder, ImageSet.data_min must be the root tile's current DATAMIN")
+        w.claim_eq("imageset-data-max-after-second-cascade", outs["dmax2"], outs["b2"], probe=("dmax2", None), ref=("b2", None),
+                   what="after a second cascade through the same Builder, ImageSet.data_max must be the root tile's current DATAMAX")
         ok = outs["opened"] == ["/t/0/0/0_0.fits"] and len(outs["calls"]) == 1 and outs["calls"][0][0] == 3
         w.claim("root-tile-opened", ok, probe=lambda ro, val: ro["opened"] == ["/t/0/0/0_0.fits"] and len(ro["calls"]) == 1)
 
